@@ -7,6 +7,7 @@ import (
 	"github.com/jsightapi/jsight-schema-go-library/bytes"
 	"github.com/jsightapi/jsight-schema-go-library/fs"
 	"github.com/jsightapi/jsight-schema-go-library/internal/lexeme"
+	"github.com/jsightapi/jsight-schema-go-library/internal/panics"
 	"github.com/jsightapi/jsight-schema-go-library/internal/sync"
 )
 
@@ -45,7 +46,10 @@ func FromFile(f *fs.File) *Enum {
 }
 
 func (e *Enum) Len() (uint, error) {
-	return e.computeLengthOnce.Do(func() (uint, error) {
+	return e.computeLengthOnce.Do(func() (length uint, err error) {
+		defer func() {
+			err = panics.Handle(recover(), err)
+		}()
 		return newScanner(e.file, scannerComputeLength).Length()
 	})
 }
@@ -112,6 +116,10 @@ func (e *Enum) compile() error {
 }
 
 func (e *Enum) doCompile() (err error) {
+	defer func() {
+		err = panics.Handle(recover(), err)
+	}()
+
 	scan := newScanner(e.file)
 
 	collectLiteral := false
